@@ -1013,6 +1013,8 @@ def run(chk, tier):
     chk.guard('C05.h', lambda: rule_conditional(chk, prog, tier))
     chk.guard('C05.i', lambda: rule_specifiers(chk, prog, tier))
     chk.guard('C05.e', lambda: rule_compat(chk, prog, tier))
+    from props import c05j
+    chk.guard('C05.j', lambda: c05j.rule_exprtypes(chk, prog, tier))
     chk.guard('C05.d', lambda: rule_literals(chk, prog, tier))
     chk.guard('C05.d2', lambda: rule_literal_base(chk, prog, tier))
     chk.guard('C05.f', lambda: rule_descriptors(chk, prog, tier))
